@@ -594,18 +594,18 @@ class AsyncFIXConnection:
         begin_seq_no = int(resend_msg[FTag.BeginSeqNo])
         end_seq_no = int(resend_msg[FTag.EndSeqNo])
 
-        # Remember next_num_out
-        current_next_num_out = self._session.next_num_out
+        # Last MsgSeqNum sent so far
+        last_seq_no = self._session.next_num_out - 1
 
-        if end_seq_no == 0 or end_seq_no >= current_next_num_out:
+        if end_seq_no == 0 or end_seq_no > last_seq_no:
             # up to the last message sent
-            end_seq_no = current_next_num_out - 1
+            end_seq_no = last_seq_no
 
         if begin_seq_no < 1 or begin_seq_no > end_seq_no:
             # Nothing was sent in this range (or EndSeqNo < BeginSeqNo)
             self.log.warning(
                 f"Invalid ResendRequest range {begin_seq_no}-{end_seq_no}, last sent"
-                f" MsgSeqNum={current_next_num_out - 1}, ignored"
+                f" MsgSeqNum={last_seq_no}, ignored"
             )
             return
 
@@ -621,14 +621,12 @@ class AsyncFIXConnection:
         journal_replay_msgs = self._journaler.recover_messages(
             self._session, MessageDirection.OUTBOUND, begin_seq_no, end_seq_no
         )
-        # Messages after requested range (cleaned from the journal by seq num rewind)
-        journal_tail_msgs = []
-        if end_seq_no + 1 < current_next_num_out:
-            journal_tail_msgs = self._journaler.recover_messages(
-                self._session, MessageDirection.OUTBOUND, end_seq_no + 1, sys.maxsize
-            )
-
-        self._journaler.set_seq_num(self._session, next_num_out=begin_seq_no)
+        # Resent messages / gap fills are journaled again under their MsgSeqNum.
+        #   The session's next_num_out is left alone: other tasks may send new
+        #   messages while the replay awaits the transport or the application hooks
+        self._journaler.purge_msgs(
+            self._session, MessageDirection.OUTBOUND, begin_seq_no, end_seq_no
+        )
         gap_fill_begin = int(begin_seq_no)
 
         noreply_msgs = {
@@ -679,12 +677,10 @@ class AsyncFIXConnection:
         if gap_fill_begin <= end_seq_no:
             await send_gap_fill(gap_fill_begin, end_seq_no + 1)
 
-        for enc_msg in journal_tail_msgs:
-            self._journaler.persist_msg(
-                enc_msg, self._session, MessageDirection.OUTBOUND
-            )
-
-        self._journaler.set_seq_num(self._session, next_num_out=current_next_num_out)
+        # Stored next_num_out follows the last journaled message, put it back
+        self._journaler.set_seq_num(
+            self._session, next_num_out=self._session.next_num_out
+        )
 
         if self._connection_state != ConnectionState.RESENDREQ_AWAITING:
             await self._state_set(ConnectionState.ACTIVE)
